@@ -146,4 +146,61 @@ theorem scalar_plumbing_correct (a : Bytes) (n : Nat) (b : Bytes) :
 example : leNat (setInt (ell + 5)) = 5 := by
   rw [(scalar_plumbing_correct [] (ell + 5) []).2.2.2.2.1]; decide
 
+/-- **SetInt64, Pick, MarshalTo, UnmarshalFrom** (over the modelled external `mod.NewInt64` / `random.Int`): SetInt64 stores
+the canonical encoding of v mod ℓ; whatever Pick stores is canonical, non-zero and below ℓ, and is the first acceptable block
+of the stream; MarshalTo writes the canonical 32 bytes and UnmarshalFrom reads them back, consuming exactly 32 -/
+theorem scalar_io_correct (v : Int) (draws : List Bytes) (a rest : Bytes) :
+    (marshal (setInt64 v) = setInt64 v ∧ (leNat (setInt64 v) : Int) = v % (ell : Int))
+    ∧ (∀ r, pick draws = some r → marshal r = r ∧ 0 < leNat r ∧ leNat r < ell)
+    ∧ (marshalTo a).length = 32
+    ∧ unmarshalFrom (marshalTo a ++ rest) = (32, .ok (marshal a)) := by
+  have hpos : 0 < ell := by decide
+  have hposI : (0 : Int) < (ell : Int) := by exact_mod_cast hpos
+  have hlt : ∀ m, m < ell → leNat (natLE 32 m) = m := fun m hm => leNat_natLE_of_lt 32 _ (Nat.lt_trans hm ell_lt)
+  have hml : (marshalTo a).length = 32 := natLE_length _ _
+  refine ⟨⟨?_, ?_⟩, ?_, hml, ?_⟩
+  · have h1 : (v % (ell : Int)).toNat < ell := by
+      have := Int.emod_lt_of_pos v hposI
+      have h0 := Int.emod_nonneg v (ne_of_gt hposI)
+      omega
+    exact (canonical_of _ (natLE_length _ _) (by show leNat (natLE 32 _) < ell; rw [hlt _ h1]; exact h1)).1
+  · have h0 := Int.emod_nonneg v (ne_of_gt hposI)
+    have h1 : (v % (ell : Int)).toNat < ell := by
+      have := Int.emod_lt_of_pos v hposI
+      omega
+    show (leNat (natLE 32 _) : Int) = _
+    rw [hlt _ h1]
+    exact Int.toNat_of_nonneg h0
+  · intro r hr
+    unfold pick at hr
+    have key : ∀ ds k, randomInt ds = some k → 0 < k ∧ k < ell := by
+      intro ds
+      induction ds with
+      | nil => intro k h; cases h
+      | cons b t ih =>
+        intro k h
+        unfold randomInt at h
+        dsimp only at h
+        split at h
+        · cases h; assumption
+        · exact ih k h
+    cases hk : randomInt draws with
+    | none => rw [hk] at hr; cases hr
+    | some k =>
+      rw [hk] at hr
+      obtain ⟨k0, k1⟩ := key draws k hk
+      cases hr
+      have hm : k % ell = k := Nat.mod_eq_of_lt k1
+      show marshal (natLE 32 (k % ell)) = natLE 32 (k % ell) ∧ 0 < leNat (natLE 32 (k % ell)) ∧ leNat (natLE 32 (k % ell)) < ell
+      rw [hm]
+      exact ⟨(canonical_of _ (natLE_length _ _) (by rw [hlt k k1]; exact k1)).1, by rw [hlt k k1]; exact k0,
+        by rw [hlt k k1]; exact k1⟩
+  · unfold unmarshalFrom
+    have hlen : ¬ (marshalTo a ++ rest).length < 32 := by rw [List.length_append, hml]; omega
+    rw [if_neg hlen, List.take_append_of_le_length (by rw [hml]), List.take_of_length_le (by rw [hml])]
+    show (32, scUnmarshal (scMarshal a)) = _
+    simp [scUnmarshal, marshal, show (scMarshal a).length = 32 from natLE_length _ _]
+
+example : pick [List.replicate 32 0, List.replicate 31 0 ++ [5]] = some (natLE 32 5) := by decide
+
 end Dos.Props.C20Api
